@@ -144,6 +144,15 @@ func propC05(j *Job) {
 		bases := []uint32{0, 1000, 1<<31 - 1, 0xFFFFFFFF, 0xFFFFFFFF - ww/2, 0xFFFFFFFF - ww + 1, 0xFFFFFFFF - 70, uint32(0) - ww - 2, 0xFFFFFFFF - 4100}
 		cfgs = append(cfgs, cfg{w: w, bases: bases, depth: depthL})
 	}
+	// the densest gap pattern every window admits (every other TSN above a hole): the SACK that
+	// has to name all of them must still be a chunk the peer can decode
+	if j.mine(0) {
+		for _, w := range wins {
+			for _, base := range []uint32{1000, 0xFFFFFFFF - w/2} {
+				c05DensestGaps(j, w, base)
+			}
+		}
+	}
 	item := 0
 	for _, c := range cfgs {
 		for _, base := range c.bases {
@@ -300,4 +309,54 @@ func compareRPQ(q *receivePayloadQueue, m *rpqModel, prevCum uint32) string {
 		}
 	}
 	return ""
+}
+
+// c05DensestGaps fills the tracker of an association with every other TSN of its window and
+// lets the association build and serialise the SACK: an independent decoder must read back a
+// SACK that names exactly the accepted TSNs.
+func c05DensestGaps(j *Job, wReq uint32, base uint32) {
+	a := &Association{payloadQueue: newReceivePayloadQueue(wReq), myMaxNumInboundStreams: 1}
+	a.payloadQueue.init(base)
+	W := a.payloadQueue.maxTSNOffset
+	want := map[uint32]bool{}
+	for off := uint32(2); off <= W; off += 2 {
+		tsn := base + off
+		if a.payloadQueue.canPush(tsn) {
+			a.payloadQueue.push(tsn)
+			want[tsn] = true
+		}
+	}
+	caseName := fmt.Sprintf("sack-densest/w%d/base%d", W, base)
+	j.Stats.Cases++
+	j.Stats.Execs++
+	sack := a.createSelectiveAckChunk()
+	p := &packet{sourcePort: 5000, destinationPort: 5000, verificationTag: 1, chunks: []chunk{sack}}
+	raw, err := p.marshal(true)
+	if err != nil {
+		// refusing to build it is an honest answer; an unreadable packet is not
+		return
+	}
+	dec, derr := wDecode(raw)
+	if derr != nil || len(dec.Chunks) != 1 || dec.Chunks[0].Typ != wSACK {
+		j.failSeq("sack.undecodable", caseName, fmt.Sprintf("%d TSNs (every other one of the %d-TSN window above cumulative TSN %d) were accepted; the SACK that reports them is %d bytes long and does not decode (%v): the 16-bit chunk length cannot hold %d gap blocks", len(want), W, base, len(raw), derr, len(sack.gapAckBlocks)), nil)
+		return
+	}
+	got := map[uint32]bool{}
+	for _, g := range dec.Chunks[0].Gaps {
+		for o := uint32(g.Start); o <= uint32(g.End); o++ {
+			got[dec.Chunks[0].CumAck+o] = true
+		}
+	}
+	for t := range want {
+		if !got[t] {
+			j.failSeq("sack.incomplete", caseName, fmt.Sprintf("accepted TSN %d is not reported by the SACK built right after (%d accepted, %d reported)", t, len(want), len(got)), nil)
+			return
+		}
+	}
+	for t := range got {
+		if !want[t] {
+			j.failSeq("sack.unsound", caseName, fmt.Sprintf("the SACK reports TSN %d, which was never accepted", t), nil)
+			return
+		}
+	}
 }
